@@ -391,6 +391,140 @@ pub fn drive(log: &mut Log) {
         }
     }
 
+    // (f2) spread strictly between 1024 and 1024.32 bits (709.78 .. 710 nats), where exp(-d) has
+    // biased exponent -1: integer exponent differences cannot land there, so the strong term is
+    // itself a sum with mantissa 1 + 2^-j (state 2 feeds state 0 once with exponent j and dies):
+    // spread = 1024 + log2(1 + 2^-j), j = 3..6
+    for j in 3..=6i64 {
+        for variant in 0..log.opts.n(2, 6) {
+            case += 1;
+            if !log.mine(case) {
+                continue;
+            }
+            let t = 5 + (variant % 2) as i64; // 5 or 6 observations
+            let e1 = 1024 / t;                // chain 1: pi1 + t * e1 = 1024 bits
+            let pi1 = 1024 - t * e1;
+            let mut md = Mdl {
+                s: 3,
+                m: 1,
+                a: vec![vec![0, -1, -1], vec![-1, 0, -1], vec![0, -1, -1]],
+                b: vec![vec![0], vec![e1], vec![0]],
+                pi: vec![0, pi1, j],
+                eps: vec![0, 0, 0],
+                kind: if variant % 2 == 0 { "plain" } else { "optend_none" },
+            };
+            if variant >= 2 {
+                md.pi[0] = 2; // shifts everything, keeps the spread
+                md.pi[1] = pi1 + 2;
+                md.pi[2] = j + 2;
+            }
+            let obs: Vec<Vec<usize>> = vec![vec![0; t as usize]];
+            log.oblige("logsum_spread_709_78_to_710_nats");
+            run_model(log, "spreadf", &md, &obs);
+        }
+    }
+
+    // (f3) decoupled chains with takeover (closed form in HmmExp.tla): chain 0 explains a^n
+    // perfectly, chain 1 loses w bits per symbol; after n symbols the column's dynamic range is
+    // w * n bits (swept across 500, 600, 709, 745 nats = 721, 866, 1023, 1075 bits and beyond);
+    // then chain 0 dies (cannot emit b / cannot end) and chain 1 is the only explanation
+    {
+        let ranges: [i64; 14] = [400, 600, 700, 715, 730, 800, 866, 900, 1000, 1023, 1030, 1076, 1300, 2000];
+        for (ri, &range) in ranges.iter().enumerate() {
+            for variant in 0..log.opts.n(2, 8) {
+                case += 1;
+                if !log.mine(case) {
+                    continue;
+                }
+                let mut rng = Rng::new(seed, 148, case);
+                let w = rng.range(1, 10);
+                let n = (range + w - 1) / w;
+                let k = if variant % 2 == 0 { 2 } else { 3 };
+                let split = rng.range(0, w); // w = de1 + ae1
+                let by_end = variant % 4 >= 2; // chain 0 dies through a zero end probability instead
+                let mut pe = vec![rng.range(0, 2), rng.range(0, 3)];
+                let mut de = vec![0, split];
+                let mut ae = vec![0, w - split];
+                let mut be = vec![if by_end { rng.range(0, 3) } else { -1 }, rng.range(0, 4)];
+                let mut ee = vec![if by_end { -1 } else { 0 }, if by_end { rng.range(0, 2) } else { 0 }];
+                if k == 3 {
+                    pe.push(rng.range(0, 5));
+                    de.push(rng.range(0, 2));
+                    ae.push(rng.range(1, 12));
+                    be.push(if rng.coin() { -1 } else { rng.range(0, 9) });
+                    ee.push(if by_end { rng.range(0, 3) } else { 0 });
+                }
+                let kind = if by_end { "optend_some" } else if rng.coin() { "plain" } else { "optend_none" };
+                let md = Mdl {
+                    s: k,
+                    m: 2,
+                    a: (0..k).map(|i| (0..k).map(|j| if i == j { de[i] } else { -1 }).collect()).collect(),
+                    b: (0..k).map(|i| vec![ae[i], be[i]]).collect(),
+                    pi: pe.clone(),
+                    eps: ee.clone(),
+                    kind,
+                };
+                let cfg = json!({"cls": "dec", "kind": kind, "k": k, "pe": pe, "de": de, "ae": ae, "be": be, "ee": ee});
+                if !log.begin("dec", cfg) {
+                    continue;
+                }
+                let mut obj: Option<Obj> = None;
+                log.call("new", json!({}), || {
+                    obj = Some(build(&md));
+                    json!({"built": 1})
+                });
+                let obj = match obj {
+                    Some(o) => o,
+                    None => continue,
+                };
+                for &(na, hb) in &[(n, 1i64), (n, 0i64), (n / 2, 1i64)] {
+                    let mut obs: Vec<usize> = vec![0; na as usize];
+                    if hb == 1 {
+                        obs.push(1);
+                    }
+                    let args = json!({"na": na, "b": hb});
+                    log.call("viterbi", args.clone(), || {
+                        let (path, lp) = match &obj {
+                            Obj::P(h) => viterbi(h, &obs),
+                            Obj::O(h) => viterbi(h, &obs),
+                        };
+                        let mut v = proj_vit(*lp);
+                        // run-length encoding of the path (representation only)
+                        let mut rle: Vec<(usize, usize)> = vec![];
+                        for st in path.iter() {
+                            match rle.last_mut() {
+                                Some(l) if l.0 == **st => l.1 += 1,
+                                _ => rle.push((**st, 1)),
+                            }
+                        }
+                        v["rle"] = Value::Array(rle.iter().take(50).map(|x| json!([x.0, x.1])).collect());
+                        v
+                    });
+                    log.call("forward", args.clone(), || {
+                        let (_, lp) = match &obj {
+                            Obj::P(h) => forward(h, &obs),
+                            Obj::O(h) => forward(h, &obs),
+                        };
+                        proj_lik(*lp)
+                    });
+                    log.call("backward", args.clone(), || {
+                        let (_, lp) = match &obj {
+                            Obj::P(h) => backward(h, &obs),
+                            Obj::O(h) => backward(h, &obs),
+                        };
+                        proj_lik(*lp)
+                    });
+                }
+                if range > 722 {
+                    log.oblige("decoupled_takeover_beyond_500_nats");
+                } else {
+                    log.oblige("decoupled_takeover_below_500_nats");
+                }
+                let _ = ri;
+            }
+        }
+    }
+
     // (g) more than 256 states: closed-form cycle family, the optimal path crosses index 256
     // (forward cycle from s0 < 256, backward cycle from s0 > 256, self loop of a state >= 256)
     let sizes: [usize; 3] = [257, 300, 1000];
